@@ -28,7 +28,7 @@ ASSUMPTIONS = ['signal handlers are invoked by calling the registered SysHandler
                'os.kill(pid, 0) of the pid-file check is answered by a table of foreign processes']
 
 TERMS = [('quit', None), ('SIGTERM', signal.SIGTERM), ('SIGINT', signal.SIGINT), ('SIGQUIT', signal.SIGQUIT)]
-PRE = {'none': [], 'incr': [('incr', {'name': 'a'})], 'restart': [('restart', {'name': 'a'})],
+PRE = {'none': [], 'restart-all': [('restart', {})], 'restart-all+incr': [('restart', {}), ('incr', {'name': 'a'})], 'incr': [('incr', {'name': 'a'})], 'restart': [('restart', {'name': 'a'})],
        'reload': [('reload', {'name': 'a'})], 'stop': [('stop', {'name': 'a'})], 'kill': [('kill', {'name': 'a'})],
        'stop+incr': [('stop', {'name': 'a'}), ('incr', {'name': 'b'})], 'restart+kill': [('restart', {'name': 'a'}), ('kill', {'name': 'a'})]}
 PIDFILE_CASES = ['absent', 'empty', 'blank', 'garbage', 'zero', 'negative', 'own', 'live-foreign', 'dead', 'trailing-junk',
@@ -42,7 +42,7 @@ def scenarios(tier):
     if tier != 'quick':
         cfgs += [dict(nw=1, pat='stubborn', w=0, gw=0, socks=0), dict(nw=2, pat='first-stubborn', w=0, gw=1, socks=2),
                  dict(nw=2, pat='slow', w=0, gw=0, socks=1)]
-    pres = ['none', 'restart', 'stop'] if tier == 'quick' else list(PRE)
+    pres = ['none', 'restart', 'stop', 'restart-all'] if tier == 'quick' else list(PRE)
     for c in cfgs:
         for pre in pres:
             out.append(Scenario('main', pre=pre, pidfile=True, E=1 if tier == 'quick' else 1, **c))
@@ -59,7 +59,7 @@ def bound(tier, scn):
 
 def bounds(tier):
     return {'termination_events': [t[0] for t in TERMS], 'arrival': 'every loop-iteration boundary from process start',
-            'pre_histories': list(PRE) if tier != 'quick' else ['none', 'restart', 'stop'], 'pidfile_cases': PIDFILE_CASES,
+            'pre_histories': list(PRE) if tier != 'quick' else ['none', 'restart', 'stop', 'restart-all'], 'pidfile_cases': PIDFILE_CASES,
             'graceful_timeout': G}
 
 
@@ -106,7 +106,7 @@ class T(object):
         self.label = 'term(%s)' % name
 
     def apply(self, world):
-        world.terminated = (CLOCK.now, self.label, world.slot())
+        world.terminated = (CLOCK.now, self.label, world.slot() or ('<restarting>' if world.arbiter._restarting else None))
         self.ev.apply(world)
 
 
@@ -137,31 +137,37 @@ def run(scn, ch):
         # only termination events are deviations (no deaths)
         win.menu = lambda w: term_menu(w) if win.open else []
     pre = PRE[scn.pre]
-    state = {'entries': 0, 'abort': None, 'deadline_missed': None}
+    state = {'entries': 0, 'abort': None, 'deadline_missed': None, 'pre_i': 0}
 
     def script(loop):
+        """Called each time circusd.main() enters loop.start() - once per arbiter incarnation (a `restart` of the whole
+        arbiter makes main() build a new one and come back here)."""
         state['entries'] += 1
         try:
             win.open = True
-            if state['entries'] == 1:
-                for w in world.arbiter.watchers:
-                    if w.name == 'a':
-                        w.warmup_delay = float(scn.w)
-                # run until the initial start has finished, then the pre-history, then idle a little, then (default) quit
-                world.run(until=lambda w: loop.stop_requested() or (w.slot() is None and not w.loop.has_ready() and
-                                                                     len(w.kernel.spawn_log) >= 1 and w.quiescent_main()),
+            for w in world.arbiter.watchers:
+                if w.name == 'a':
+                    w.warmup_delay = float(scn.w)
+            stopped = lambda: loop.stop_requested()       # noqa: E731
+            if world.terminated is None:
+                # the initial start of this incarnation
+                world.run(until=lambda w: stopped() or (w.slot() is None and not w.loop.has_ready() and
+                                                        len(w.kernel.spawn_log) >= 1 and w.quiescent_main()),
                           horizon=8, menu=win.menu)
-                for cmd, props in pre:
-                    if loop.stop_requested() or world.terminated:
-                        break
+                # the pre-history
+                while state['pre_i'] < len(pre) and not stopped() and world.terminated is None:
+                    cmd, props = pre[state['pre_i']]
+                    state['pre_i'] += 1
                     if world.arbiter.ctrl.stream.closed():
                         break
                     world.request(cmd, **props)
-                    world.run(until=lambda w: loop.stop_requested() or w.terminated is not None or
+                    world.run(until=lambda w: stopped() or w.terminated is not None or
                               (w.slot() is None and not w.stopping_processes()), horizon=4, menu=win.menu)
-                if not loop.stop_requested() and world.terminated is None:
-                    world.run(until=lambda w: loop.stop_requested() or w.terminated is not None, horizon=1.2, menu=win.menu)
-                if world.terminated is None and not loop.stop_requested():
+                if stopped() and world.terminated is None and world.arbiter._restarting:
+                    return              # the arbiter restarts itself: main() comes back with a new one
+                if not stopped() and world.terminated is None:
+                    world.run(until=lambda w: stopped() or w.terminated is not None, horizon=1.2, menu=win.menu)
+                if world.terminated is None and not stopped():
                     # default path: an orderly quit at the end
                     win.open = False
                     T(Req('quit'), 'quit-default').apply(world)
@@ -174,7 +180,6 @@ def run(scn, ch):
             win.open = False
             if why != 'until':
                 state['deadline_missed'] = (CLOCK.now - t_sig, world.slot())
-                # let main() return anyway so that the process can be torn down: force the loop to stop
         except Abort as e:
             state['abort'] = str(e)
 
@@ -198,7 +203,10 @@ def run(scn, ch):
         term = world.terminated
         tlab = term[1] if term else None
         slot_at = term[2] if term else None
-        site = 'sighandler.quit/dropped-while-exclusive-operation' if (state['deadline_missed'] and slot_at) else 'arbiter.stop'
+        site = 'arbiter.stop'
+        if state['deadline_missed'] and slot_at:
+            site = ('sighandler.quit/dropped-while-arbiter-restarts' if slot_at == '<restarting>'
+                    else 'sighandler.quit/dropped-while-exclusive-operation')
         if state['abort']:
             res.check('C08.exits_0', False, 'aborted: %s (terminated by %s)' % (state['abort'], tlab), where=world.blocked_site())
             return finish(world, res, aborted=state['abort'])
